@@ -324,7 +324,7 @@ def run_cat_case(case):
 
 def run_catalogue(i, acc, tier):
     cls = cat_model(i)
-    tols = [1e-10, 1e-3] if tier == 'quick' else [1e-10, 1e-6, 1e-3, 0.5]
+    tols = [1e-10, 1e-3, 0.0] if tier == 'quick' else [1e-10, 1e-6, 1e-3, 0.5, 0.0, 0]
     max_iters = [0, 1, 2, 5, 60] if tier == 'quick' else [0, 1, 2, 3, 5, 10, 60, 200]
     for dv in (0, 1):
         for max_iter in max_iters:
